@@ -2,7 +2,9 @@ use crate::common::*;
 use serde_json::Value;
 
 pub mod c01;
+pub mod c08;
 pub mod c09;
+pub mod c13;
 pub mod c16;
 
 pub struct PropSpec {
@@ -16,7 +18,7 @@ pub struct PropSpec {
 }
 
 pub fn all() -> Vec<PropSpec> {
-    vec![c01::spec(), c09::spec(), c16::spec()]
+    vec![c01::spec(), c08::spec(), c09::spec(), c13::spec(), c16::spec()]
 }
 
 pub fn get(id: &str) -> Option<PropSpec> {
